@@ -11,9 +11,12 @@ import (
 	"crypto/sha256"
 	"encoding/hex"
 	"fmt"
+	"github.com/buildbarn/bb-storage/pkg/clock"
+	"github.com/buildbarn/bb-storage/pkg/eviction"
 	"strconv"
 	"strings"
 	"sync"
+	"time"
 
 	remoteexecution "github.com/bazelbuild/remote-apis/build/bazel/remote/execution/v2"
 	"github.com/buildbarn/bb-storage/pkg/blobstore"
@@ -33,12 +36,20 @@ type Config struct {
 	Records, MaxGet, MaxPut int
 	HashInit                uint64
 	Index                   string // mem | dev
+	VCache                  bool   // reads go through a data integrity validation cache (CAS kinds)
 }
 
 func (c Config) Line() string {
 	b := c.BM
 	return fmt.Sprintf("#cfg %s %s %d %d %d %d %d %d %s %d %d %d %d %s", c.Kind, b.Policy, b.Old, b.Cur, b.New, b.Sector, b.SectorsPerBl, b.Spare, b.Alloc,
-		c.Records, c.MaxGet, c.MaxPut, c.HashInit, c.Index)
+		c.Records, c.MaxGet, c.MaxPut, c.HashInit, c.indexField())
+}
+
+func (c Config) indexField() string {
+	if c.VCache {
+		return c.Index + "+vc"
+	}
+	return c.Index
 }
 
 func ParseConfig(line string) (Config, bool) {
@@ -48,8 +59,9 @@ func ParseConfig(line string) (Config, bool) {
 	}
 	n := func(i int) int { v, _ := strconv.Atoi(w[i]); return v }
 	hi, _ := strconv.ParseUint(w[13], 10, 64)
+	// the index backend may carry the suffix "+vc": reads go through a data integrity validation cache
 	return Config{Kind: w[1], BM: bmx.Config{Policy: w[2], Old: n(3), Cur: n(4), New: n(5), Sector: n(6), SectorsPerBl: n(7), Spare: n(8), Alloc: w[9]},
-		Records: n(10), MaxGet: n(11), MaxPut: n(12), HashInit: hi, Index: w[14]}, true
+		Records: n(10), MaxGet: n(11), MaxPut: n(12), HashInit: hi, Index: strings.TrimSuffix(w[14], "+vc"), VCache: strings.HasSuffix(w[14], "+vc")}, true
 }
 
 type errLog struct {
@@ -75,6 +87,7 @@ type Store struct {
 	Lock  sync.RWMutex
 	Log   *errLog
 	RBF   *countingRBF
+	Gate  *gatedLBM
 
 	// FreeHits collects device accesses that touched a block which the allocator had on its free list at that
 	// moment (C04: space is not handed out while a reader or writer of it is still active).
@@ -90,6 +103,10 @@ func NewStore(cfg Config) *Store {
 	var rbf blobstore.ReadBufferFactory = blobstore.CASReadBufferFactory
 	if cfg.Kind == "ac" {
 		rbf = blobstore.ACReadBufferFactory
+	} else if cfg.VCache {
+		// as new_blob_access.go does when a data integrity validation cache is configured
+		rbf = blobstore.NewValidationCachingReadBufferFactory(rbf,
+			digest.NewExistenceCache(clock.SystemClock, digest.KeyWithInstance, 1000, time.Hour, eviction.NewLRUSet[string]()))
 	}
 	s.RBF = &countingRBF{base: rbf}
 	var base local.BlockAllocator
@@ -129,15 +146,54 @@ func NewStore(cfg Config) *Store {
 		arr = local.NewInMemoryLocationRecordArray(cfg.Records, s.LBM)
 	}
 	s.KLM = local.NewHashingKeyLocationMap(arr, cfg.Records, cfg.HashInit, uint32(cfg.MaxGet), cfg.MaxPut, "verif_stx")
+	s.Gate = &gatedLBM{LocationBlobMap: s.LBM}
 	switch cfg.Kind {
 	case "hier":
-		s.BA = local.NewHierarchicalCASBlobAccess(s.KLM, s.LBM, &s.Lock, nil)
+		s.BA = local.NewHierarchicalCASBlobAccess(s.KLM, s.Gate, &s.Lock, nil)
 	case "flati", "ac":
-		s.BA = local.NewFlatBlobAccess(s.KLM, s.LBM, digest.KeyWithInstance, &s.Lock, "verif_stx", nil)
+		s.BA = local.NewFlatBlobAccess(s.KLM, s.Gate, digest.KeyWithInstance, &s.Lock, "verif_stx", nil)
 	default:
-		s.BA = local.NewFlatBlobAccess(s.KLM, s.LBM, digest.KeyWithoutInstance, &s.Lock, "verif_stx", nil)
+		s.BA = local.NewFlatBlobAccess(s.KLM, s.Gate, digest.KeyWithoutInstance, &s.Lock, "verif_stx", nil)
 	}
 	return s
+}
+
+// gatedLBM is the LocationBlobMap the blob access sees. When armed, the next Get that reports "needs refresh" - the
+// point at which a read gives up its read lock to come back with the write lock - parks until released, so that another
+// operation can be queued for the write lock and run in the gap.
+type gatedLBM struct {
+	local.LocationBlobMap
+	mu      sync.Mutex
+	reached chan struct{}
+	release chan struct{}
+}
+
+func (g *gatedLBM) arm() (reached, release chan struct{}) {
+	g.mu.Lock()
+	defer g.mu.Unlock()
+	g.reached, g.release = make(chan struct{}), make(chan struct{})
+	return g.reached, g.release
+}
+
+func (g *gatedLBM) disarm() {
+	g.mu.Lock()
+	g.reached, g.release = nil, nil
+	g.mu.Unlock()
+}
+
+func (g *gatedLBM) Get(l local.Location) (local.LocationBlobGetter, bool) {
+	getter, needsRefresh := g.LocationBlobMap.Get(l)
+	if needsRefresh {
+		g.mu.Lock()
+		reached, release := g.reached, g.release
+		g.reached, g.release = nil, nil
+		g.mu.Unlock()
+		if reached != nil {
+			close(reached)
+			<-release
+		}
+	}
+	return getter, needsRefresh
 }
 
 // InitLine is the model's init command for this configuration.
